@@ -169,7 +169,7 @@ def _check_flip_estimator(ck, inst, asite, p, cls, ocls, absolute):
     it = p.interp
     s, o, smp, r = p.value
     S = T.sym("samples")
-    loops = [l for l in it.loops if ocls + ".apply" in l["site"]]
+    loops = loops_enclosing(it, ".importance_sampling_numerator") or [l for l in it.loops if ocls + ".apply" in l["site"]]
     if len(loops) != 1 or loops[0]["generic"] is None:
         ck.undecided("C08.R3", inst + ":site loop", asite, "expected exactly one loop over sites, found %d" % len(loops))
         return
